@@ -387,7 +387,12 @@ def check_merge(prop: str, res: Result, repo: Repo):
         else:
             res.fail(rule, finding(prop, rule, m, m.node, "merge must restore the raw (pre-conversion) values before aggregating", construct="merge: " + " -> ".join(names)))
         conditional_reset = any(isinstance(item, tuple) and item[0] == "if" for item in p)
-        if "self.reset_candle" in names and names[-1] == "self.reset_candle" and "self.clean_values" in stores:
+        # the wipe (clean_values = {} and reset_candle()) may come before or after the aggregation (they touch disjoint attributes) but
+        # after the raw values were restored, and nothing may save / convert / write readings afterwards
+        reset_at = next((i for i, st in enumerate(p) if isinstance(st, ast.AST) and any(call_target(c) == "self.reset_candle" for c in calls_in(st))), None)
+        clean_at = next((i for i, st in enumerate(p) if isinstance(st, ast.AST) and any(ast.unparse(t) == "self.clean_values" and isinstance(getattr(st, "value", None), ast.Dict) and not st.value.keys for _, t in attr_stores(st))), None)
+        undone = any(call_target(c) in ("self.save_clean_values",) for c in path_calls(p)[(names.index("self.reset_candle") + 1 if "self.reset_candle" in names else 0):]) or any(isinstance(st, ast.AST) and any(t.attr in ("indicators", "sub_indicators", "_tag") for _, t in attr_stores(st)) for st in p[(reset_at or 0) + 1:])
+        if reset_at is not None and clean_at is not None and rec_at is not None and rec_at < reset_at and rec_at < clean_at and not undone:
             res.ok(rule, {"site": m.where, "why": "merged bucket loses its readings, tag and saved values, so it is converted and calculated again"}, nontrivial="merge:reset")
         else:
             res.fail(rule, finding(prop, rule, m, m.node, "a path through merge does not end with clean_values = {} and reset_candle(): stale readings survive a merge", construct="merge: " + " -> ".join(names) + (" (conditional)" if conditional_reset else "")))
@@ -455,7 +460,7 @@ def check_span(prop: str, res: Result, repo: Repo):
                 npar = len([p_ for p_ in callee.params if p_ not in ("self", "cls")])
                 given = lambda k: k < len(c.args) or any(kw.arg == [p_ for p_ in callee.params if p_ not in ("self", "cls")][k] for kw in c.keywords)
                 bounds = [arg_of(c, callee, npar - 2), arg_of(c, callee, npar - 1)] if npar >= 3 and given(npar - 2) and given(npar - 1) else None
-                if bounds is not None and not (fi.name == "calculate_index" and _own_range(fi, bounds)):
+                if bounds is not None and not (fi.name == "calculate_index" and _own_range(fi, bounds)) and not _span_one(bounds[0], bounds[1]):
                     bounds = _local_defs(fi, bounds)
                 if bounds is None and not (npar >= 3 and (given(npar - 2) or given(npar - 1))):
                     res.ok(rule, {"site": f"{fi.where} {norm_construct(c)}", "span": "resume (calculate())"})
